@@ -77,7 +77,7 @@ GATES = {
 }
 
 TIERS = {
-    "quick": dict(traces=640, max_events=60, mc_timeout=240, batch=10),
+    "quick": dict(traces=960, max_events=60, mc_timeout=240, batch=10),
     "thorough": dict(traces=8000, max_events=200, mc_timeout=1500, batch=40),
 }
 
@@ -307,7 +307,7 @@ def run_check(prop, tier, seed):
     for j in range(n):
         # half of the budget on the property's home families, half on every other family (R3: the monitors
         # themselves guard on the property's domain, so out-of-domain scenarios are simply not judged)
-        fam = fams[(j // 3) % len(fams)] if j % 3 == 0 else others[(j - j // 3) % len(others)]
+        fam = fams[(j // 2) % len(fams)] if j % 2 == 0 else others[(j // 2) % len(others)]
         jobs.append((fam, seed * 100000 + j, T["max_events"], 0.1 if j % 5 == 0 else 0.0))
     res = generate_traces(jobs)
     traces, skipped = [], []
